@@ -43,10 +43,10 @@ def ref_siphons_traps(case):
     return species, minimal_sets(siph), minimal_sets(trap)
 
 
-def body_structure(case, rec):
+def body_structure(case, rec, H=None):
     from synkit.CRN.Petri.structure import find_siphons, find_traps
 
-    H = crn_gen.build(case)
+    H = crn_gen.build(case) if H is None else H
     species, siph, trap = ref_siphons_traps(case)
     rec.nt(any(len(s) >= 2 for s in siph))
     rec.label(f"n_siphons={min(len(siph), 4)}", f"n_traps={min(len(trap), 4)}")
@@ -74,6 +74,15 @@ def body_structure(case, rec):
     G = hypergraph_to_bipartite(H)
     if {frozenset(x) for x in find_siphons(G)} != set(siph) or {frozenset(x) for x in find_traps(G)} != set(trap):
         raise Violation("bipartite-input", f"{crn_gen.rx_str(case)}: bipartite-graph input gives different siphons/traps")
+
+
+def body_structure_after_edit(case, rec):
+    """Siphons/traps of a network object that was analysed before and then edited in place."""
+    from synkit.CRN.Petri.structure import find_siphons, find_traps
+
+    H, final, preserved = crn_gen.build_edited(case, lambda h: (find_siphons(h), find_traps(h)))
+    body_structure({"rx": final}, rec, H=H)
+    rec.label("count-preserving-edit" if preserved else "counts-changed")
 
 
 # ---------------------------------------------------------------- firing semantics
@@ -261,6 +270,8 @@ SUBS = [
     Sub("structure_small", body_structure, enum=enum_structure, exhaustive=True, shards={"quick": 16, "thorough": 16},
         doc="all networks over {A,B,C} with unit coefficients and <= 2 (quick) / <= 3 (thorough) reactions"),
     Sub("structure_random", body_structure, strategy=strat_structure, examples={"quick": 20000, "thorough": 300000}, shards={"quick": 8, "thorough": 16}),
+    Sub("structure_after_edit", body_structure_after_edit, strategy=lambda tier: crn_gen.edited_net_strategy(max_species=4, max_rxn=4, max_coef=2), examples={"quick": 4000, "thorough": 60000}, shards={"quick": 8, "thorough": 16},
+        doc="siphons/traps of network objects reached by in-place edits after an earlier analysis"),
     Sub("firing", body_fire, strategy=strat_fire, examples={"quick": 12000, "thorough": 200000}, shards={"quick": 4, "thorough": 8}),
     Sub("realizability", body_realizable, strategy=strat_real, examples={"quick": 24000, "thorough": 400000}, shards={"quick": 16, "thorough": 16}),
 ]
